@@ -42,6 +42,22 @@ pub fn gen_item(rng: &mut Rng, sym: u8, elev: u8, uniq: u32) -> Item {
     let mut hdr = MsgHeader::realistic(rng, 0);
     hdr.date = rng.range(2, 30_000) as u16;
     hdr.time = (rng.below(80_000) as u32) * 1000 + (uniq % 1000);
+    if sym != b'R' {
+        // fixed frames as they really occur: one segment of several (1 of 5 .. 5 of 5), arbitrary
+        // halfword counts; a summary counts messages, whatever their headers say about segments
+        match rng.below(4) {
+            0 => {
+                hdr.seg_count = rng.range(2, 9) as u16;
+                hdr.seg_num = rng.range(1, hdr.seg_count as u64) as u16;
+            }
+            1 => {
+                hdr.size = rng.range(0, 0xFFFE) as u16;
+                hdr.seg_count = rng.u16();
+                hdr.seg_num = rng.u16();
+            }
+            _ => {}
+        }
+    }
     match sym {
         b'R' => {
             hdr.mtype = 31;
@@ -426,7 +442,7 @@ trivial = empty list; distinct = distinct kind strings; oracle = 60-line referen
     });
 
     // ---- random lists ------------------------------------------------------------------------------------
-    let total: u64 = ctx.tier.pick(250, 150_000);
+    let total: u64 = ctx.tier.pick(1_500, 150_000);
     par_cases(ctx, total, |i, obs| {
         let mut rng = Rng::derive(seed, 14, 1 + i);
         let len = match rng.below(6) {
